@@ -483,14 +483,72 @@ def v_getattr(interp, v, name):
     if name == "ndim":
         return len(v.axes)
     if name == "isin":
-        return lambda values: interp.contains(values, v)
-    if name == "tolist":
+        from . import frames
+
+        return lambda values: frames.series_isin(interp, v, values)
+    if name in ("tolist", "to_list"):
+        from . import frames
         from .seq import SymSeq
 
         if len(v.axes) != 1:
             raise Undecided("tolist of non-1-D")
+        if isinstance(v.axes[0], frames.RowAxis):
+            return lambda: frames.ColList(v)
         return lambda: SymSeq(v.axes[0], v.t)
+    if name == "apply":
+
+        def apply(fn, **kw):
+            _use("Series.apply(f): f applied to every element (pointwise)")
+            r = fn(V(v.t, (), None, v.nan, v.inf))
+            r = lift(r)
+            return V(r.t, v.axes, v.series, r.nan, r.inf)
+
+        return apply
+    if name == "str":
+        return StrAccessor(v)
+    if name == "between":
+
+        def between(left, right, inclusive="both"):
+            _use("Series.between(l, r, inclusive): l <= x <= r ('both'), strict on the excluded side(s) otherwise")
+            lo = (v >= left) if inclusive in ("both", "left") else (v > left)
+            hi = (v <= right) if inclusive in ("both", "right") else (v < right)
+            return lo & hi
+
+        return between
+    if name == "reset_index":
+        return lambda drop=False, **k: V(v.t, v.axes, ("range", getattr(v.axes[0], "name", "?")), v.nan, v.inf)
+    if name == "isna" or name == "isnull":
+        return lambda: V(v.nan if v.nan is not None else z3.BoolVal(False), v.axes, v.series)
+    if name == "notnull" or name == "notna":
+        return lambda: V(z3.Not(v.nan) if v.nan is not None else z3.BoolVal(True), v.axes, v.series)
+    if name == "fillna":
+
+        def fillna(value=None, **kw):
+            if v.nan is None:
+                return v
+            vt, ct = to_term(value), v.t
+            if vt.sort() != ct.sort():
+                vt, ct = real(vt), real(ct)
+            return V(z3.If(v.nan, vt, ct), v.axes, v.series, None, v.inf)
+
+        return fillna
     raise Undecided(f"attribute .{name} of a symbolic array has no theory entry")
+
+
+class StrAccessor:
+    def __init__(self, v):
+        self.v = v
+
+    def pyvc_getattr(self, interp, name):
+        v = self.v
+        if not z3.is_string(v.t):
+            raise Undecided(".str on a non-string column")
+        if name == "startswith":
+            _use("Series.str.startswith(p): prefix test per element (null -> null, falsy in a mask)")
+            return lambda p: V(z3.PrefixOf(to_term(p), v.t), v.axes, v.series, v.nan)
+        if name == "contains":
+            return lambda p: V(z3.Contains(v.t, to_term(p)), v.axes, v.series, v.nan)
+        raise Undecided(f".str.{name}")
 
 
 def _axis_len(a):
@@ -729,7 +787,12 @@ def math_table():
 
 
 def make_theories(interp):
+    from . import frames
+
+    pdt = frames.pandas_table(interp)
     return {
+        "pandas": pdt,
+        "pd": pdt,
         "builtins": builtins_table(),
         "numpy": numpy_table(interp),
         "np": numpy_table(interp),
